@@ -2,8 +2,10 @@ package gosx
 
 import (
 	"fmt"
+	"go/constant"
 	"go/token"
 	"go/types"
+	"os"
 	"sort"
 	"strings"
 	"sync"
@@ -60,6 +62,7 @@ type funcInfo struct {
 }
 
 var funcInfoCache sync.Map
+var traceOn = os.Getenv("GOSX_TRACE") != ""
 
 func getFuncInfo(fn *ssa.Function, harnessFiles map[string]bool, fset *token.FileSet) *funcInfo {
 	if fi, ok := funcInfoCache.Load(fn); ok {
@@ -538,6 +541,9 @@ func (x *Exec) constValue(c *ssa.Const) Value {
 			return x.F.Bool(constantBool(c))
 		case u.Info()&types.IsInteger != 0:
 			w, _, _ := intWidth(u)
+			if constant.Sign(constant.ToInt(c.Value)) < 0 {
+				return x.F.BV(w, uint64(c.Int64()))
+			}
 			return x.F.BV(w, c.Uint64())
 		case u.Info()&types.IsString != 0:
 			return Str{K: constantString(c)}
@@ -613,6 +619,9 @@ func (x *Exec) step(t *Thread, f *Frame, instr ssa.Instruction) {
 	}
 	if p := instr.Pos(); p.IsValid() {
 		x.lastPos = x.P.Fset.Position(p).String()
+	}
+	if traceOn {
+		fmt.Fprintf(os.Stderr, "T%d %s b%d.%d: %s\n", t.id, f.fn.Name(), f.block.Index, f.ip, instr.String())
 	}
 	defer func() {
 		if r := recover(); r != nil {
